@@ -564,7 +564,10 @@ def supplemental_callargs(cx):
 
 
 TOKEN_ITEMS = [
+    ('the delimiter byte is looked at from the begin offset', 'BUF.seek(begin)'),
     ('delimiter defaults to the first byte of a primary segment', 'DELIM = BUF.read(1).decode(encoding)'),
+    ('the segment is read from its begin offset, whatever was read before', 'BUF.seek(begin)'),
+    ('the whole declared extent is asked for', 'RAW = BUF.read(end + 1 - begin).decode(encoding)'),
     ('an empty segment yields no keywords and no delimiter', 'return ({}, None)'),
     ('a primary segment must start with the delimiter', 'if RAW[0] != DELIM:'),
     ('everything after the last delimiter is dropped', 'END = RAW.rfind(DELIM)'),
